@@ -59,7 +59,7 @@ SPEC = r"""
         !(v is Str || v is List || v is Object) ==> r == Err::<Vec<(SourcedValue, SourcedValue)>, Error>(Error::ForIterNotIterable), // [C16:only_strings_lists_and_objects_are_iterable]
         // a string is walked byte by byte, in order, keyed by its index
         (v matches Value::Str(s) && s@.len() <= i64::MAX) ==> (r matches Ok(ps) && ps@.len() == v->Str_0@.len()
-            && forall|i: int| 0 <= i < ps@.len() ==> (#[trigger] ps@[i]).0 == int_value(i) && byte_value(ps@[i].1, v->Str_0@[i])), // [C07:for_over_a_string_visits_its_bytes_in_order_keyed_by_index]
+            && forall|i: int| 0 <= i < ps@.len() ==> (#[trigger] ps@[i]).0 == int_value(i) && byte_value(ps@[i].1, v->Str_0@[i])), // [C07_C15:for_over_a_string_visits_its_bytes_in_order_keyed_by_index]
         // a list is walked by index over the elements it has at loop entry (the result is a copy: later changes do not affect it)
         (v matches Value::List(l) && l.0.0@.len() <= i64::MAX) ==> (r matches Ok(ps) && ps@.len() == v->List_0.0.0@.len()
             && forall|i: int| 0 <= i < ps@.len() ==> (#[trigger] ps@[i]).0 == int_value(i) && ps@[i].1 == v->List_0.0.0@[i]), // [C07:for_over_a_list_visits_the_entry_snapshot_by_index]
